@@ -1,6 +1,6 @@
 SPECIFICATION Spec
 CONSTANTS
-  MaxSeg = 4
+  MaxSeg = 3
   MaxDepth = 3
   Mut = "none"
 INVARIANTS FirstMatch NoPrefix MatcherAgrees MapThenRoute
